@@ -97,6 +97,8 @@ pub trait Seek: Read {
 // ---- chunk decoding stub (cas_chunk_format.rs::deserialize_chunk) -----------------------------------------------------------
 // the chunk found at `pos`: decoded data and number of bytes its serialized form claims (8-byte header + compressed length field)
 pub uninterp spec fn spec_chunk_at(bytes: Seq<u8>, pos: nat) -> Option<(Seq<u8>, nat)>;
+// reader position after the chunk at `pos` has been decoded (what the decoder actually consumed)
+pub uninterp spec fn spec_chunk_end(bytes: Seq<u8>, pos: nat) -> nat;
 pub uninterp spec fn spec_data_hash(data: Seq<u8>) -> MerkleHash;
 #[verifier::external_body]
 pub fn compute_data_hash(slice: &[u8]) -> (r: MerkleHash) ensures r == spec_data_hash(slice@) { unimplemented!() }
@@ -105,8 +107,9 @@ pub const MAX_3BYTE: usize = 0xFF_FFFF;
 pub fn deserialize_chunk<R: Read>(reader: &mut R) -> (r: Result<(Vec<u8>, usize, u32), CasObjectError>)
     ensures
         final(reader).bytes() == old(reader).bytes(),
-        // (final position deliberately unspecified)
         r matches Ok((data, clen, ulen)) ==> {
+            // reads start inside the byte string and never move past its end
+            &&& final(reader).pos() == spec_chunk_end(old(reader).bytes(), old(reader).pos()) && final(reader).pos() <= old(reader).bytes().len()
             &&& spec_chunk_at(old(reader).bytes(), old(reader).pos()) == Some((data@, clen as nat))
             // decoded length equals the header's uncompressed length (checked by deserialize_chunk_to_writer); both header lengths are 3-byte fields
             &&& ulen == data@.len() && ulen <= MAX_3BYTE
@@ -134,6 +137,8 @@ impl CasObject {
                 &&& footer_tables_ok(cas)
                 // `seek(End(-(4 + info_length)))` succeeded
                 &&& cas.info_length + 4 <= old(reader).bytes().len()
+                // exactly info_length bytes were then parsed (`total_bytes_read != info_length` is an error), at least ident + version
+                &&& final(reader).pos() == old(reader).bytes().len() - 4 && cas.info_length >= 8
             },
     { unimplemented!() }
 }
@@ -318,6 +323,8 @@ impl CasObject {
                 &&& /*@C08*/ forall|idx: int| 0 <= idx < n ==> cas.chunk_consistent(b, idx)
                 // the footer begins right after the last chunk, and is followed only by its 4-byte length
                 &&& /*@C08*/ cas.chunk_start(n) + cas.info_length + 4 == b.len()
+                // there is at least one chunk, and decoding the last chunk stopped exactly where the footer begins
+                &&& /*@C08*/ n > 0 && spec_chunk_end(b, cas.chunk_start(n - 1)) == cas.chunk_start(n)
                 &&& /*@C06*/ xorb_root(cas.decoded_list(b, n)) == *hash
                 &&& /*@C06*/ xorb_root(cas.decoded_list(b, n)) == cas.info.cashash
             }),
@@ -327,7 +334,9 @@ impl CasObject {
             invariant
                 reader.bytes() == b, b == old(reader).bytes(),
                 b.len() + MAX_3BYTE <= u32::MAX,
-                spec_footer(b) == Some(cas), footer_tables_ok(cas), cas.info_length + 4 <= b.len(),
+                spec_footer(b) == Some(cas), footer_tables_ok(cas), cas.info_length + 4 <= b.len(), cas.info_length >= 8,
+                reader.pos() <= b.len(),
+                reader.pos() == (if idx == 0 { (b.len() - 4) as nat } else { spec_chunk_end(b, cas.chunk_start(idx as int - 1)) }),
                 cas.unpacked_sum(b, cas.info.num_chunks as int) <= u32::MAX,
                 hash_chunks@.len() == idx,
                 cumulative_compressed_length == start_offset, start_offset == cas.chunk_start(idx as int),
